@@ -1,4 +1,4 @@
-"""PENDING (fires on today's tree; files named pending_* are not loaded).
+"""C14 extension R14.23 (D66, repaired).
 
 R14.23: the complete form of R14.22's obligation.  CPython tries the reflected
 method first iff type(y) is a proper subclass of type(x) and
